@@ -13,10 +13,13 @@ use std::rc::Rc;
 
 /// TypeScript-style probing of a relative specifier over a set of project paths.
 pub fn resolve_in(paths: &dyn Fn(&str) -> bool, current_file: &str, spec: &str) -> Option<String> {
-    if !(spec.starts_with("./") || spec.starts_with("../") || spec == "." || spec == "..") {
+    // a tsconfig `paths` alias of the virtual project: "@app/x" is "x" under the project root
+    let aliased = spec.strip_prefix("@app/");
+    if aliased.is_none() && !(spec.starts_with("./") || spec.starts_with("../") || spec == "." || spec == "..") {
         return None;
     }
-    let mut parts: Vec<&str> = current_file.split('/').collect();
+    let mut parts: Vec<&str> = if aliased.is_some() { vec![] } else { current_file.split('/').collect() };
+    let spec = aliased.unwrap_or(spec);
     parts.pop();
     for seg in spec.split('/') {
         match seg {
